@@ -2225,3 +2225,19 @@ mod tests {
         );
     }
 }
+
+// Verification hooks (read-only accessors); compiled only with `--cfg olson_sean_k_wax_verif`.
+#[cfg(olson_sean_k_wax_verif)]
+pub mod verif {
+    use super::*;
+
+    /// The text of the regular expression that `Glob::is_match` and `Glob::matched` execute.
+    pub fn glob_pattern(glob: &Glob<'_>) -> String {
+        glob.program.as_str().to_string()
+    }
+
+    /// The text of the regular expression that `Any::is_match` and `Any::matched` execute.
+    pub fn any_pattern(any: &Any<'_>) -> String {
+        any.program.as_str().to_string()
+    }
+}
